@@ -441,6 +441,7 @@ func checkC02(p *Prog, r *Report) {
 	checkWindowWithinFile(p, r, ptrFn)
 	checkTokenCodec(p, r)
 	checkBlockLengthSiblings(p, r)
+	checkFlushNotBeforeLastMatch(p, r)
 	checkCoversEveryByte(p, r)
 	checkWindowNotCached(p, r, "C02/WINDOW-NOT-CACHED")
 	if r.Prop != "C03" {
